@@ -152,33 +152,70 @@ func addTarget(t *rapid.T, r *Repo, o RepoGenOpts, name string) *RTarget {
 	return tg
 }
 
-// fixFilegroup removes sources of a filegroup whose output names would collide (two entries mapping
-// to the same path under the filegroup's package) – plz rejects or overwrites those, and the
-// property is not about that.
+// origin names where the bytes of output rel of target t ultimately come from.
+func (r *Repo) origin(t *RTarget, rel string, outs map[string][]OutEnt, depth int) string {
+	if t.Kind != "filegroup" || depth > 20 {
+		return "out:" + t.Label() + "|" + rel
+	}
+	for _, f := range r.EffectiveFileSrcs(t) {
+		if f == rel {
+			return "file:" + t.Pkg + "/" + f
+		}
+	}
+	for _, d := range t.Deps() {
+		if dt := r.Target(d); dt != nil {
+			for _, o := range outs[d] {
+				if o.Rel == rel {
+					return r.origin(dt, rel, outs, depth+1)
+				}
+			}
+		}
+	}
+	return "out:" + t.Label() + "|" + rel
+}
+
+// fixFilegroup removes sources of a filegroup whose output names would collide: two entries of the
+// filegroup mapping to the same path, or an entry mapping to a path under the filegroup's package
+// that another target of that package also outputs with bytes of a different origin (plz does not
+// reject that; whichever is built last wins, so such a repository has no well-defined outputs and
+// the properties are not about it).
 func fixFilegroup(r *Repo, tg *RTarget) {
 	outs, _ := r.Eval()
+	taken := map[string]string{} // rel -> origin, for the other targets of the package
+	for _, o := range r.Targets {
+		if o == tg || o.Pkg != tg.Pkg {
+			continue
+		}
+		for _, e := range outs[o.Label()] {
+			taken[e.Rel] = r.origin(o, e.Rel, outs, 0)
+		}
+	}
 	seen := map[string]bool{}
 	var keep []RSrc
 	for _, s := range tg.Srcs {
-		var rels []string
+		type cand struct{ rel, origin string }
+		var cs []cand
 		if s.File != "" {
-			rels = []string{s.File}
-		} else {
+			cs = []cand{{s.File, "file:" + tg.Pkg + "/" + s.File}}
+		} else if dt := r.Target(s.Label); dt != nil {
 			for _, o := range outs[s.Label] {
-				rels = append(rels, o.Rel)
+				cs = append(cs, cand{o.Rel, r.origin(dt, o.Rel, outs, 0)})
 			}
 		}
 		clash := false
-		for _, rel := range rels {
-			if seen[rel] {
+		for _, c := range cs {
+			if seen[c.rel] {
+				clash = true
+			}
+			if og, ok := taken[c.rel]; ok && og != c.origin {
 				clash = true
 			}
 		}
 		if clash {
 			continue
 		}
-		for _, rel := range rels {
-			seen[rel] = true
+		for _, c := range cs {
+			seen[c.rel] = true
 		}
 		keep = append(keep, s)
 	}
